@@ -375,27 +375,63 @@ def r2(ctx):
             res_.append(good)
         okw = bool(res_) and all(res_)
     ctx.check("R08.2", "Dense:weights-outputs-x-inputs", okw, "dense-weight-shape:" + short(w, 80), c.loc(dfn), "weights: Double(output, input)")
+    # optimizer state placeholders, decided on E6 summaries: in the reverse walk over the layers a dense layer contributes a zero
+    # Double(output x input) (+ a Single(output) slot) with (output, input) the extents of its own weights, a (de)convolution contributes
+    # kernels.len() copies of a zero Triple(ch x kh x kw) with the extents of its own first kernel
+    from .. import e6
     for fpath in ("network::Network::set_optimizer", "feedback::Feedback::copy_optimizer"):
         fn = ctx.fn(fpath)
         short_n = fpath.split("::")[1]
-        ms = [x for x in walk(fn["body"]) if x.get("k") == "match" and any(e4.arm_variant(a)[0].startswith("network::Layer::") for a in x["arms"])]
-        if not ms:
-            raise Unestablished("no match on the layer kind in %s" % fpath, c.loc(fn))
-        for arm in ms[0]["arms"]:
-            vp, binds = e4.arm_variant(arm)
-            kind = vp.split("::")[-1]
-            txt = pretty(arm["body"])
-            if kind == "Dense":
-                ok = ("tensor::Shape::Double(output, input) => (*output, *input)" in txt and "std::vec::from_elem(std::vec::from_elem(0.0, input), output)" in txt
-                      and "std::vec::from_elem(0.0, output)" in txt and "layer.weights.shape" in txt)
-                ctx.check("R08.2", "%s:Dense-state-shape" % short_n, ok, "dense-state-allocation", c.loc(fn, arm["body"]), "state = Double(output x input), Single(output)")
-            elif kind in ("Convolution", "Deconvolution"):
-                ok = ("tensor::Shape::Triple(ch, he, wi) => (ch, he, wi)" in txt and "std::vec::from_elem(std::vec::from_elem(std::vec::from_elem(0.0, kw), kh), ch)" in txt
-                      and "layer.kernels.len()" in txt and "layer.kernels[0].shape" in txt)
-                ctx.check("R08.2", "%s:%s-state-shape" % (short_n, kind), ok, "kernel-state-allocation", c.loc(fn, arm["body"]), "state = kernels.len() x Triple(ch, kh, kw)")
-        chain = [x for x in walk(fn["body"]) if x.get("k") == "for" and mentions_field(x["iter"], "layers")]
-        ctx.check("R08.2", "%s:reverse-order" % short_n, bool(chain) and pretty(strip(chain[0]["iter"])) == "self.layers.iter().rev()", "state-order", c.loc(fn),
+        E = e6.Exec(c, fn)
+        E.run_fn()
+        walks = [(lid, S_) for lid, S_ in E.loop_summaries.items() if S_.get("kind") == "for"
+                 and any(e6.find_terms(tuple(p_.eff), lambda t: t[0] == "call" and t[1] in ("tensor::Tensor::double", "tensor::Tensor::triple")) for p_ in S_["paths"])]
+        if len(walks) != 1:
+            raise Unestablished("%s: expected one walk over the layers building the state placeholders, found %d" % (fpath, len(walks)), c.loc(fn))
+        lid, S_ = walks[0]
+        it = S_["iter"]
+        rv = e6.is_call(it, "rev", 1)
+        ctx.check("R08.2", "%s:reverse-order" % short_n, rv is not None and rv[0] == ("field", ("p", "self"), "layers"), "state-order:" + short(e6.show(it, 2), 50), c.loc(fn),
                   "state allocated in reverse layer order (matches the update walk)")
+        el = ("elem", it, lid)
+        for kind, pty in (("Dense", "dense::Dense"), ("Convolution", "convolution::Convolution"), ("Deconvolution", "deconvolution::Deconvolution")):
+            vp = "network::Layer::" + kind
+            mine = [p_ for p_ in S_["paths"] if p_.exit is None and e6.variant_of(p_).get(el) == vp]
+            pay = ("payload", el, vp, 0)
+            ok = bool(mine)
+            why = ""
+            for p_ in mine:
+                pushes = [e_ for e_ in p_.eff if e_[0] == "push"]
+                if len(pushes) != 1:
+                    ok, why = False, "%d pushes" % len(pushes)
+                    continue
+                V = pushes[0][2]
+                if kind == "Dense":
+                    dbl = e6.find_terms(V, lambda t: t[0] == "call" and t[1] == "tensor::Tensor::double")
+                    sgl = e6.find_terms(V, lambda t: t[0] == "call" and t[1] == "tensor::Tensor::single")
+                    shp = ("field", ("field", pay, "weights"), "shape")
+                    O_, I_ = ("payload", shp, "tensor::Shape::Double", 0), ("payload", shp, "tensor::Shape::Double", 1)
+                    cn = e6.const_nest(E, dbl[0][2][0]) if len(dbl) == 1 else None
+                    good = cn is not None and [e6.strip_upd(x_) for x_ in cn[0]] == [O_, I_] and cn[1] == ("lit", "0.0")
+                    cs = [e6.const_nest(E, t_[2][0]) for t_ in sgl]
+                    good = good and bool(sgl) and all(c_ is None or c_[0] in ([O_], [("lit", "0")]) for c_ in cs)
+                    if not good:
+                        ok, why = False, "dense state %s" % e6.show(V, 3)[:100]
+                else:
+                    tri = e6.find_terms(V, lambda t: t[0] == "call" and t[1] == "tensor::Tensor::triple")
+                    shp = ("field", ("idx", ("field", pay, "kernels"), ("lit", "0")), "shape")
+                    dims = [("payload", shp, "tensor::Shape::Triple", i_) for i_ in range(3)]
+                    cn = e6.const_nest(E, tri[0][2][0]) if len(tri) >= 1 else None
+                    outer = e6.is_call(V, "from_elem", 2)
+                    cnt_ok = outer is not None and outer[1] == ("call", "std::vec::Vec::<T, A>::len", (("field", pay, "kernels"),))
+                    if not cnt_ok:
+                        es = e6.elementwise_sequence(E, V)
+                        cnt_ok = es is not None and (e6.range_of(es[0]) == (("lit", "0"), ("call", "std::vec::Vec::<T, A>::len", (("field", pay, "kernels"),))) or es[0] == ("field", pay, "kernels"))
+                    good = cn is not None and [e6.strip_upd(x_) for x_ in cn[0]] == dims and cn[1] == ("lit", "0.0") and cnt_ok
+                    if not good:
+                        ok, why = False, "kernel state %s" % e6.show(V, 3)[:100]
+            ctx.check("R08.2", "%s:%s-state-shape" % (short_n, kind), ok, ("dense-state-allocation" if kind == "Dense" else "kernel-state-allocation"), c.loc(fn),
+                      "state placeholders have the parameter's own extents", why)
 
 
 def _strip_upd(t):
